@@ -31,7 +31,6 @@ open_("D7", "C03", "any UPDATE of a table that has a PRIMARY KEY / UNIQUE index 
 open_("D24", "C03", "UPDATE of a column of a PRIMARY KEY table fails with 'unexpected data type: Int'", "O-res", "history_contains_update", "findings/D24-update-of-column-on-pk-table.json")
 open_("D25", "C03", "after UPDATE, a DELETE followed by a read in the same transaction shows the pre-update version again", "O-res", "history_contains_update", "findings/D25-own-delete-after-update-shows-old-version.json")
 open_("F1", "C03", "INSERT of NULL into a PRIMARY KEY/UNIQUE column fails only after the row was stored: the row stays and a later committed insert is lost", "O-state", "null_into_unique_column", "findings/F1-null-into-unique-column-leaves-row.json")
-open_("F2", "C03", "a session begun before another transaction's CREATE TABLE fails its next INSERT with 'btree page not found: 0'", "O-res", "ddl_concurrent_with_open_session", "findings/F2-session-insert-after-concurrent-ddl-and-inserts.json")
 open_("F3", "C03", "with more than three relations (tables + indexes) concurrent inserts corrupt catalog rows: 'table not found', panics or process abort", "O-res", "more_than_3_relations", "findings/F3-many-relations-concurrent-catalog-updates.json")
 
 # ---- open findings: constraints (C07) ----
@@ -57,7 +56,6 @@ open_("X2", "C15", "CREATE UNIQUE INDEX on a column that holds a NULL fails with
 open_("D16", "C15", "ALTER TABLE ... ADD COLUMN always fails ('Column with name ... was not found in schema')", "O-res", "history_contains_alter", "findings/D16-alter-add-column-fails.json")
 open_("D17", "C15", "ALTER TABLE ... DROP COLUMN of a middle column leaves every existing row unreadable ('Unexpected EOF')", "O-state", "history_contains_alter", "findings/D17-alter-drop-column-leaves-rows-unreadable.json")
 open_("D6", "C15", "DROP TABLE inside a session destroys the table before commit (tree deallocated at statement time)", "O-state", "drop_table_inside_session", "findings/D6-drop-table-in-session-destroys-table.json")
-open_("F2", "C15", "a session begun before another transaction's CREATE TABLE fails its next INSERT with 'btree page not found: 0'", "O-res", "ddl_concurrent_with_open_session", "findings/F2-session-insert-after-concurrent-ddl-and-inserts.json")
 
 # ---- findings: hostile statements (C16) ----
 fixed("D18b", "C16", "01e8bb8", "'*' inside an expression, EXISTS, IN (SELECT ...) and scalar sub-queries reached todo!()/unreachable!() in the evaluator and killed a pool worker", "O-res", "findings/D18b-star-inside-expression-panics.json")
